@@ -47,7 +47,7 @@ func (c *consumption) Close() error {
 	}
 
 	c.closed = true
-	c.recvQueue.Signal()
+	c.recvQueue.Push(nil) // 在队列锁内唤醒，避免 closed 检查与 Pop 等待之间丢失信号
 	return nil
 }
 
